@@ -371,6 +371,7 @@ def mon_errors(tr):
     for i, (op, lines) in enumerate(tr):
         f = op.split()
         if f and f[0] == "call":
+            f[2] = {"subhuge": "sub", "unsubhuge": "unsub"}.get(f[2], f[2])
             kind_of[f[1]] = f[2]
         wrote = any(l.startswith("ev w ") for l in lines)
         if f and f[0] == "call":
@@ -397,6 +398,9 @@ def mon_errors(tr):
                     out.append(("errors:undocumented:persist", "persisted publish returned %s" % p[2]))
                 if any(x.startswith("pub ok") for x in lines) or any(x.startswith("ev save") and not x.startswith("ev savefail") for x in lines if "pub err" in l and "store" not in l):
                     out.append(("errors:dropped-but-saved", "persisted publish returned %s but left a record" % p[2]))
+            elif l.startswith("ev backoff-mismatch"):
+                out.append(("errors:backoff-nil", "Client.Backoff(%s) is %s although IsDeny/IsEnd/SubscribeError say the error is %s"
+                            % (p[2], "not nil" if p[3] == "permanent=true" else "nil", "permanent" if p[3] == "permanent=true" else "not permanent")))
             elif l.startswith("disconnect "):
                 tags = set(t.split(":")[0] for t in p[1].split("+")) - DETAIL
                 if not tags or not tags <= DOC_CLASSES["disconnect"]:
